@@ -228,7 +228,8 @@ impl Sim {
             }
             Step::Op { h, op, refs } => {
                 let Some(m) = self.model.get(h) else { return false };
-                op.applies_to(m.fam) && self.refs_valid(Some(*h), refs)
+                let added: u64 = refs.iter().filter_map(|(g, _)| self.model.get(g)).map(|x| x.weight).sum();
+                op.applies_to(m.fam) && self.refs_valid(Some(*h), refs) && m.weight + added <= MAX_WEIGHT
             }
             Step::Take { src, new } => {
                 self.usable_src(*src) && !self.alive(*new) && self.model[src].fam.has_take()
@@ -435,6 +436,11 @@ impl Sim {
         let is_row_op = !matches!(pred, InsPred::Plain);
         let check_c10 = self.c10() && fam == Family::Insert;
 
+        let added_weight: u64 = 1 + refs
+            .iter()
+            .filter_map(|(g, _)| self.model.get(g))
+            .map(|x| x.weight)
+            .sum::<u64>();
         let mut stmt = self.arena.borrow_mut().remove(h).expect("HARNESS: target missing");
         let before = if is_row_op {
             Some(stmt.clone())
@@ -487,6 +493,7 @@ impl Sim {
             (InsPred::Plain, Got::Ok) => {
                 let m = self.model.get_mut(&h).unwrap();
                 m.log.ops.extend(resolved.flatten());
+                m.weight += added_weight;
                 m.touch();
             }
             (InsPred::Plain, other) => {
@@ -564,6 +571,7 @@ impl Sim {
                     if keep {
                         let m = self.model.get_mut(&h).unwrap();
                         m.log.ops.push(acc.clone());
+                        m.weight += added_weight;
                         m.touch();
                     }
                 }
@@ -671,7 +679,9 @@ impl Sim {
         }
         let mut mh = MH::new(fam, log);
         mh.exp = Some(exp);
+        mh.weight = self.model[&src].weight;
         self.model.insert(new, mh);
+        self.model.get_mut(&src).unwrap().weight = 1;
         self.link(src, new);
         Ok(())
     }
@@ -708,6 +718,7 @@ impl Sim {
         let log = self.model[&src].log.clone();
         let mut mh = MH::new(fam, log);
         mh.exp = Some(exp);
+        mh.weight = self.model[&src].weight;
         self.model.insert(new, mh);
         self.link(src, new);
         Ok(())
@@ -750,7 +761,9 @@ impl Sim {
             ));
         }
         let log = self.model[&src].log.clone();
+        let w = self.model[&src].weight;
         let m = self.model.get_mut(&dst).unwrap();
+        m.weight = w;
         m.log = log;
         m.residue = false;
         m.touch();
